@@ -57,8 +57,11 @@ func TestMain(m *testing.M) {
 type point = edwards25519.ExtendedGroupElement
 
 var (
-	fieldP   = new(big.Int).Sub(new(big.Int).Lsh(big.NewInt(1), 255), big.NewInt(19))
-	groupL   = func() *big.Int { v, _ := new(big.Int).SetString("27742317777372353535851937790883648493", 10); return v.Add(v, new(big.Int).Lsh(big.NewInt(1), 252)) }()
+	fieldP = new(big.Int).Sub(new(big.Int).Lsh(big.NewInt(1), 255), big.NewInt(19))
+	groupL = func() *big.Int {
+		v, _ := new(big.Int).SetString("27742317777372353535851937790883648493", 10)
+		return v.Add(v, new(big.Int).Lsh(big.NewInt(1), 252))
+	}()
 	ellLE    [32]byte
 	identEnc = [32]byte{1}
 	tors     [8]*point   // tors[j] = j*Q, Q a generator of the 8-torsion subgroup
@@ -811,7 +814,19 @@ func lenClass(n int) string {
 // torsion shifts; proposer -> header -> wire -> verifier end to end.
 
 func TestLeadingZeroProofs(t *testing.T) {
-	stats.Check(t, 40, 60, func(t *rapid.T) {
+	stats.Check(t, 40, 200, func(t *rapid.T) { deepCase(t, 1, 6000) })
+}
+
+// Thorough tier only: one proof per shard whose encoding starts with TWO zero bytes (1 in 65536).
+func TestTwoLeadingZeroBytes(t *testing.T) {
+	if !stats.Thorough() {
+		t.Skip("thorough tier only (expected 65536 proofs per hit)")
+	}
+	stats.Check(t, 1, 1, func(t *rapid.T) { deepCase(t, 2, 300000) })
+}
+
+func deepCase(t *rapid.T, zerosWanted, maxSearch int) {
+	{
 		kp := genKey(t)
 		random := genMsg().Draw(t, "random") // plays the role of preBH.Random
 		deltaSecs := rapid.SampledFrom([]int{0, 1, 2, 3, 5}).Draw(t, "secondsSincePre")
@@ -822,15 +837,15 @@ func TestLeadingZeroProofs(t *testing.T) {
 		var m, rnd []byte
 		found := false
 		tries := 0
-		for ctr := 0; ctr < 6000; ctr++ {
-			rnd = append(append([]byte{}, random...), byte(ctr), byte(ctr>>8))
+		for ctr := 0; ctr < maxSearch; ctr++ {
+			rnd = append(append([]byte{}, random...), byte(ctr), byte(ctr>>8), byte(ctr>>16))
 			m = logical.VerifGenVrfMsg(rnd, delta)
 			p, err := vrf.VRFGenProve(kp.pk, kp.sk, m)
 			if err != nil {
 				t.Fatalf("VRFGenProve: %v", err)
 			}
 			tries++
-			if p[0] == 0 {
+			if leadingZeros(p) >= zerosWanted {
 				found = true
 				break
 			}
@@ -920,7 +935,7 @@ func TestLeadingZeroProofs(t *testing.T) {
 		stats.Case(key, classes...)
 		stats.Sample(map[string]string{"test": "leading-zero", "pk": short(kp.pk), "m": short(m), "pi": short(pi), "carried_len": fmt.Sprint(len(carried)),
 			"search_tries": fmt.Sprint(tries), "adv_accepted_forms": fmt.Sprint(acc), "stake": in.String(), "e2e": e2e, "via_transport": fmt.Sprint(via)})
-	})
+	}
 }
 
 // ------------------------------------------------------------------------------------------
